@@ -24,6 +24,7 @@ LEVEL_TEXT = (
     "zero error is positive exactly when trio_valid/duo_valid pass; gamete pmfs are observed on every gamete and sum to one."
 )
 LEVEL_TEXT += ' Session 3: the kernels are called with scratch arrays holding garbage and extra padding (as the sampler does); validity on clonal edges; single-parent shapes that pass on fewer copies than the parent has; and PEDERR itself - PedigreeAllelesMultiTrace.incongruence over generated mixed-ploidy traces - equals the fraction of steps whose zero-error probability is zero.'
+LEVEL_TEXT += ' Session 4: a blanket kind - the probability as the program evaluates it, through the pedigree arrays and markov_blanket_log_probability / generic_markov_blanket_log_probability for individuals without progeny: sums to one over all genotypes and equals the gamete model, with any user error rate (0 included) on unknown-parent edges.'
 LEVEL_NOTE = "Trusts the brute-force oracle in vlib/oracles/pedigree.py (subset enumeration of parental copies); tolerance 1e-9."
 RULE = (
     "case = one (parents, ploidies, tau, lambda, error, frequencies) configuration with all its progeny genotypes enumerated; "
